@@ -173,7 +173,18 @@ fn stepper_programs() -> Vec<Vec<u8>> {
     for hex in ["ff03ffff0100ffff0101ffff010280", "ff03ffff01820000ffff0101ffff010280", "ff03ffff0180ffff0101ffff010280", "ff03ffff10ffff0100ffff010080ffff0101ffff010280", "ff0101", "ff05ff0180", "ff06ff0180", "ff04ff02ff0380", "ff03ff02ff05ff0780", "ff02ff02ff0380", "ff10ff05ff0b80", "ff8200ffff0180", "ff01", "ff80ff0180"] {
         v.push((0..hex.len() / 2).map(|i| u8::from_str_radix(&hex[2 * i..2 * i + 2], 16).unwrap()).collect());
     }
+    // every operator the stepping evaluator implements itself, with 0 .. arity+2 operands (each operand evaluates without error)
+    for (op, first) in [("a", "(q . 2)"), ("i", "1"), ("c", "1"), ("f", "1"), ("r", "1"), ("q", "1")] { for n in 0..=5usize {
+        let mut t = format!("({}", op);
+        for k in 0..n { t.push(' '); t.push_str(if k == 0 { first } else { "1" }); }
+        t.push(')');
+        if let Some(b) = asm_bytes(&t) { v.push(b.clone()); if let Some(w) = asm_bytes(&format!("(c (q . 9) {})", t)) { v.push(w); } }
+    } }
     v
+}
+fn asm_bytes(text: &str) -> Option<Vec<u8>> {
+    let mut a = clvmr::Allocator::new();
+    chialisp::classic::clvm_tools::binutils::assemble(&mut a, text).ok().and_then(|n| clvmr::serde::node_to_bytes(&a, n).ok())
 }
 
 // ---- classic optimiser: if R evaluates to v in E (consensus), optimise(R) evaluates to v in E
@@ -433,6 +444,35 @@ fn chk_modern_print(clvm_bytes: &[u8]) -> Option<Value> {
     }
 }
 
+// a QuotedString constant (as the compiler keeps source strings and printable hex constants) printed by the modern
+// printer is read back to the same bytes by the modern reader and by the classic assembler
+fn chk_modern_print_quoted(kind: u8, body: &[u8]) -> Option<Value> {
+    use chialisp::classic::clvm_tools::binutils::assemble;
+    use chialisp::compiler::clvm::convert_to_clvm_rs;
+    use chialisp::compiler::sexp::{parse_sexp, SExp};
+    use chialisp::compiler::srcloc::Srcloc;
+    use std::rc::Rc;
+    let b = body.to_vec();
+    let res = catch_unwind(move || {
+        let mut a = clvmr::Allocator::new();
+        let loc = Srcloc::start("*replay*");
+        let v = Rc::new(SExp::Cons(loc.clone(), Rc::new(SExp::Integer(loc.clone(), num_bigint::BigInt::from(1))), Rc::new(SExp::QuotedString(loc.clone(), kind, b.clone()))));
+        let want = convert_to_clvm_rs(&mut a, v.clone()).ok().and_then(|m| clvmr::serde::node_to_bytes(&a, m).ok())?;
+        let text = v.to_string();
+        let modern = parse_sexp(loc.clone(), text.bytes()).ok().and_then(|v| v.first().cloned())
+            .and_then(|s| convert_to_clvm_rs(&mut a, s).ok()).and_then(|m| clvmr::serde::node_to_bytes(&a, m).ok());
+        if modern.as_ref() != Some(&want) { return Some((text, format!("modern reader gave {:?}, the value is {:?}", modern, want))); }
+        let classic = assemble(&mut a, &text).ok().and_then(|m| clvmr::serde::node_to_bytes(&a, m).ok());
+        if classic.as_ref() != Some(&want) { return Some((text, format!("classic assembler gave {:?}, the value is {:?}", classic, want))); }
+        None
+    });
+    match res {
+        Ok(Some((text, o))) => Some(hit(json!({"quote_kind": kind, "string_bytes": body}), format!("printed text {:?} reads back to the same bytes", text), o, "SExp::QuotedString Display then parse_sexp / binutils::assemble")),
+        Err(_) => Some(hit(json!({"quote_kind": kind, "string_bytes": body}), "no panic".into(), "panic".into(), "modern print/read panicked")),
+        _ => None,
+    }
+}
+
 // ---- front ends never panic: all short texts over a hostile alphabet, all short byte strings
 fn chk_no_panic_text(text: &[u8]) -> Option<Value> {
     use chialisp::classic::clvm_tools::binutils::assemble;
@@ -513,6 +553,75 @@ fn chk_include_case(kind: &str, mode: &str) -> Option<Value> {
             None => Some(hit(input, "a result or an error".into(), "process killed by a signal (stack overflow abort)".into(), how)),
         },
         Err(_) => None,
+    }
+}
+
+
+// ---- C19 (bounded stress stand-in, used when the contract unit cannot decide): concurrent writers and readers of one output path
+fn chk_atomic_write(rounds: usize) -> Option<Value> {
+    use chialisp::util::gentle_overwrite;
+    use std::sync::atomic::{AtomicBool, Ordering};
+    use std::sync::Arc;
+    let base = std::env::temp_dir().join(format!("verif_replay_atomic_{}", std::process::id()));
+    let _ = std::fs::remove_dir_all(&base);
+    if std::fs::create_dir_all(&base).is_err() { return None; }
+    let out = base.join("out.hex").to_string_lossy().to_string();
+    let payloads: Vec<String> = (0..4usize).map(|k| { let mut t = String::new(); for i in 0..(300_000 + 100_000 * k) { t.push((b'a' + ((i + k) % 23) as u8) as char); } t }).collect();
+    let payloads = Arc::new(payloads);
+    let _ = std::fs::write(&out, &payloads[0]);
+    let mut problem: Option<String> = None;
+    for round in 0..rounds {
+        let stop = Arc::new(AtomicBool::new(false));
+        let bad = Arc::new(std::sync::Mutex::new(None::<String>));
+        let mut hs = vec![];
+        for r in 0..2 {
+            let (stop, bad, out, payloads) = (stop.clone(), bad.clone(), out.clone(), payloads.clone());
+            hs.push(std::thread::spawn(move || { let _ = r; while !stop.load(Ordering::Relaxed) {
+                if let Ok(t) = std::fs::read_to_string(&out) { if !payloads.iter().any(|p| *p == t) { *bad.lock().unwrap() = Some(format!("a reader saw {} bytes that are none of the complete payloads", t.len())); } }
+            } }));
+        }
+        let mut ws = vec![];
+        for w in 0..8usize {
+            let (out, payloads, bad) = (out.clone(), payloads.clone(), bad.clone());
+            ws.push(std::thread::spawn(move || { for i in 0..3usize {
+                let p = &payloads[(w + i) % payloads.len()];
+                if let Err(e) = gentle_overwrite("in.clsp", &out, p) { *bad.lock().unwrap() = Some(format!("writer {} failed although the directory is writable: {}", w, e)); }
+            } }));
+        }
+        for w in ws { let _ = w.join(); }
+        stop.store(true, Ordering::Relaxed);
+        for h in hs { let _ = h.join(); }
+        let seen: Option<String> = { let g = bad.lock().unwrap(); g.clone() };
+        if let Some(b) = seen { problem = Some(format!("round {}: {}", round, b)); break; }
+    }
+    let _ = std::fs::remove_dir_all(&base);
+    problem.map(|o| hit(json!({"schedule": "8 writer threads x 3 gentle_overwrite calls of 4 payloads (300-600 kB) on one path, 2 polling readers", "rounds": rounds}), "every read returns one complete payload and every writer succeeds".into(), o, "chialisp::util::gentle_overwrite under threads (bounded stress run, not a proof)"))
+}
+
+
+// ---- C14: the defmac extension functions with every argument count 0..4 and argument kinds (string, number, symbol, list)
+fn chk_macro_ext(name: &str, args: &[&str]) -> Option<Value> {
+    let src = format!("(mod (X) (include *standard-cl-23*) (defmac m () ({} {})) (m))", name, args.join(" "));
+    let s2 = src.clone();
+    match catch_unwind(move || compile_only(&s2)) {
+        Err(_) => Some(hit(json!({"program": src}), "a result or an error".into(), "panic".into(), "compile_clvm_text_maybe_opt (strict dialect, defmac extension function)")),
+        Ok(_) => None,
+    }
+}
+// token-level mutations of valid programs: delete / duplicate / swap one token, truncate at every token
+fn tokens_of(src: &str) -> Vec<String> {
+    let mut out = vec![]; let mut cur = String::new();
+    for ch in src.chars() {
+        if ch == '(' || ch == ')' || ch == ' ' { if !cur.is_empty() { out.push(cur.clone()); cur.clear(); } if ch != ' ' { out.push(ch.to_string()); } } else { cur.push(ch); }
+    }
+    if !cur.is_empty() { out.push(cur); }
+    out
+}
+fn chk_compile_no_panic(src: &str) -> Option<Value> {
+    let s2 = src.to_string();
+    match catch_unwind(move || { let _ = compile_only(&s2); }) {
+        Err(_) => Some(hit(json!({"program": src}), "a result or an error".into(), "panic".into(), "compile_clvm_text_maybe_opt on a token-level mutation of a valid program")),
+        Ok(_) => None,
     }
 }
 
@@ -603,6 +712,63 @@ fn chk_symbols(source: &str, functions: &[(&str, &str)], complete: bool) -> Opti
     }
 }
 
+
+// ---- C13: a synthesised function's entry (lambda, let): calling the code found through the entry with arguments laid out
+// as the recorded argument list says gives the value the source gives
+fn chk_symbol_call(source: &str, name_prefix: &str, bindings: &[(&str, i64)], expected: &str) -> Option<Value> {
+    use chialisp::classic::clvm_tools::binutils::assemble;
+    use chialisp::classic::clvm_tools::stages::stage_0::{DefaultProgramRunner, TRunProgram};
+    use chialisp::compiler::clvm::convert_to_clvm_rs;
+    use chialisp::compiler::compiler::{compile_file, extract_program_and_env, path_to_function, DefaultCompilerOpts};
+    use chialisp::compiler::comptypes::CompilerOpts;
+    use chialisp::compiler::sexp::{parse_sexp, SExp};
+    use chialisp::compiler::srcloc::Srcloc;
+    use std::borrow::Borrow;
+    use std::collections::HashMap;
+    use std::rc::Rc;
+    fn at(p: &num_bigint::BigInt, s: Rc<SExp>) -> Option<Rc<SExp>> {
+        let mut p = p.clone(); let mut s = s; let one = num_bigint::BigInt::from(1);
+        while p > one { let right = (&p % 2) == one; p >>= 1; s = match s.borrow() { SExp::Cons(_, a, b) => if right { b.clone() } else { a.clone() }, _ => return None }; }
+        Some(s)
+    }
+    fn fill(s: Rc<SExp>, b: &[(String, i64)]) -> Result<Rc<SExp>, String> {
+        match s.borrow() {
+            SExp::Cons(l, x, y) => Ok(Rc::new(SExp::Cons(l.clone(), fill(x.clone(), b)?, fill(y.clone(), b)?))),
+            SExp::Atom(l, n) => { let name = String::from_utf8_lossy(n).to_string(); let base = name.split("_$_").next().unwrap_or("").to_string();
+                match b.iter().find(|(k, _)| *k == base) { Some((_, v)) => Ok(Rc::new(SExp::Integer(l.clone(), num_bigint::BigInt::from(*v)))), None => Err(format!("recorded argument {} is not a parameter of the function", name)) } }
+            _ => Ok(s.clone()),
+        }
+    }
+    let (src, pre, ex) = (source.to_string(), name_prefix.to_string(), expected.to_string());
+    let binds: Vec<(String, i64)> = bindings.iter().map(|(k, v)| (k.to_string(), *v)).collect();
+    let res = catch_unwind(move || {
+        let mut a = clvmr::Allocator::new();
+        let runner = Rc::new(DefaultProgramRunner::new());
+        let opts: Rc<dyn CompilerOpts> = Rc::new(DefaultCompilerOpts::new("*replay*"));
+        let mut symbols = HashMap::new();
+        let program = match compile_file(&mut a, runner.clone(), opts, &src, &mut symbols) { Ok(p) => Rc::new(p), Err(e) => return Some(format!("did not compile: {}", e.1)) };
+        let env = match extract_program_and_env(program.clone()) { Some((_, e)) => e, None => return Some("no environment in emitted program".to_string()) };
+        let (key, name) = match symbols.iter().find(|(k, v)| k.len() == 64 && v.starts_with(&pre)) { Some((k, v)) => (k.clone(), v.clone()), None => return Some(format!("no symbol entry for a function named {}...", pre)) };
+        let hash: Vec<u8> = (0..32).map(|i| u8::from_str_radix(&key[2 * i..2 * i + 2], 16).unwrap()).collect();
+        let code = match path_to_function(env.clone(), &hash).and_then(|p| at(&p, env.clone())) { Some(c) => c, None => return Some(format!("entry {} -> {}: code not found in the program", key, name)) };
+        let rec = match symbols.get(&format!("{}_arguments", key)) { Some(r) => r.clone(), None => return Some(format!("entry {} -> {} has no recorded arguments", key, name)) };
+        let rec_s = match parse_sexp(Srcloc::start("*args*"), rec.bytes()) { Ok(v) if !v.is_empty() => v[0].clone(), _ => return Some(format!("recorded arguments {} do not parse", rec)) };
+        let args = match fill(rec_s, &binds) { Ok(x) => x, Err(e) => return Some(format!("{} (recorded: {})", e, rec)) };
+        let loc = Srcloc::start("*call*");
+        let call_env = Rc::new(SExp::Cons(loc.clone(), env.clone(), args));
+        let (c_n, e_n) = match (convert_to_clvm_rs(&mut a, code), convert_to_clvm_rs(&mut a, call_env)) { (Ok(c), Ok(e)) => (c, e), _ => return Some("conversion failed".to_string()) };
+        let got = runner.run_program(&mut a, c_n, e_n, None).ok().and_then(|r| clvmr::serde::node_to_bytes(&a, r.1).ok());
+        let want = assemble(&mut a, &ex).ok().and_then(|n| clvmr::serde::node_to_bytes(&a, n).ok());
+        if got != want { return Some(format!("function {} called with its recorded arguments {} filled in gives {:?}, the source gives {} ({:?})", name, rec, got, ex, want)); }
+        None
+    });
+    match res {
+        Ok(Some(o)) => Some(hit(json!({"source": source, "function": name_prefix}), format!("the code under the entry, called as its recorded argument list says, returns {}", expected), o, "compile_file + path_to_function + clvmr run of the extracted code")),
+        Err(_) => Some(hit(json!({"source": source}), "no panic".into(), "panic".into(), "compile / symbol lookup panicked")),
+        _ => None,
+    }
+}
+
 fn chk_bigint_from_bytes(b: &[u8], signed: bool) -> Option<Value> {
     use chialisp::classic::clvm::__type_compatibility__::{Bytes, BytesFromType};
     use chialisp::classic::clvm::casts::{bigint_from_bytes, TConvertOption};
@@ -686,7 +852,50 @@ fn meaning_cases() -> Vec<(&'static str, &'static str, &'static str)> {
         ("(mod (X) (defun-inline sel3 (((A B) C)) (list A B C)) (sel3 (list (list (+ X 1) (+ X 2)) (+ X 3))))", "(10)", "(11 12 13)"),
         ("(mod (X) (defun-inline selp (((A . B) . C)) (list A B C)) (selp (c (c (+ X 1) (+ X 2)) (+ X 3))))", "(10)", "(11 12 13)"),
         ("(mod (X) (defun-inline deep ((A (B (C D)) E)) (list A B C D E)) (deep (list 1 (list 2 (list 3 X)) 5)))", "(4)", "(1 2 3 4 5)"),
+        ("(mod (X L) (defun-inline F (A B C . D) (list A B C D)) (F X &rest L))", "(1 (2 3 4 5 6))", "(1 2 3 (4 5 6))"),
+        ("(mod (X L) (defun-inline F (A B C . D) (list A B C D)) (F &rest L))", "(1 (2 3 4 5 6))", "(2 3 4 (5 6))"),
+        ("(mod (X L) (defun-inline F (A B . D) (list A B D)) (F X &rest L))", "(1 (2 3 4))", "(1 2 (3 4))"),
+        ("(mod (X L) (defun-inline F (A B C . D) (list A B C D)) (F X 9 &rest L))", "(1 (2 3 4))", "(1 9 2 (3 4))"),
+        ("(mod (X L) (defun F (A B C . D) (list A B C D)) (F X &rest L))", "(1 (2 3 4 5 6))", "(1 2 3 (4 5 6))"),
+        ("(mod (X L) (defun-inline G (A B C D E) (list E D C B A)) (G X &rest L))", "(1 (2 3 4 5))", "(5 4 3 2 1)"),
+        ("(mod (X) (defun k () (q . ((1) 2))) (c X (k)))", "(5)", "(5 (1) 2)"),
+        ("(mod (X) (defun kk () (q . ((1) (2) (1 1) 3))) (c X (kk)))", "(5)", "(5 (1) (2) (1 1) 3)"),
+        ("(mod (X) (q . ((1) 2)))", "(5)", "((1) 2)"),
     ]
+}
+
+
+// ---- C16 (open case): the residual the REPL reduces (mod (X) EXPR) to, compiled with the same definitions, agrees with the
+// original program on every argument for which the original returns a value
+fn chk_repl_open(defs: &[&str], expr: &str, argsets: &[&str]) -> Option<Value> {
+    use chialisp::classic::clvm_tools::stages::stage_0::DefaultProgramRunner;
+    use chialisp::compiler::compiler::DefaultCompilerOpts;
+    use chialisp::compiler::repl::Repl;
+    use std::rc::Rc;
+    let defs_v: Vec<String> = defs.iter().map(|d| d.to_string()).collect();
+    let ex = expr.to_string();
+    let argv: Vec<String> = argsets.iter().map(|d| d.to_string()).collect();
+    let res = catch_unwind(move || {
+        let mut a = clvmr::Allocator::new();
+        let opts = Rc::new(DefaultCompilerOpts::new("*repl*"));
+        let runner = Rc::new(DefaultProgramRunner::new());
+        let mut repl = Repl::new(opts, runner);
+        for d in defs_v.iter() { if repl.process_line(&mut a, d.clone()).is_err() { return None; } }
+        let residual = match repl.process_line(&mut a, format!("(mod (X) {})", ex)) { Ok(Some(r)) => r.to_sexp().to_string(), _ => return None };
+        let orig = with_dialect(&format!("(mod (X) {} {})", defs_v.join(" "), ex), "*standard-cl-21*");
+        let resid = with_dialect(&format!("(mod (X) {} {})", defs_v.join(" "), residual), "*standard-cl-21*");
+        for at in argv.iter() {
+            let want = match compile_and_run(&orig, false, at) { Ok(Some(w)) => w, _ => continue };
+            let got = compile_and_run(&resid, false, at);
+            if got != Ok(Some(want.clone())) { return Some((residual, at.clone(), format!("original program returns {:?}, residual program gives {:?}", want, got))); }
+        }
+        None
+    });
+    match res {
+        Ok(Some((residual, at, o))) => Some(hit(json!({"definitions": defs, "expression": expr, "args": at}), format!("compiling the residual {} agrees with the original", residual), o, "Repl::process_line on (mod (X) expr) vs compile + clvmr run (cl21)")),
+        Err(_) => Some(hit(json!({"definitions": defs, "expression": expr}), "no panic".into(), "panic".into(), "REPL / compile panicked")),
+        _ => None,
+    }
 }
 
 // ---- C16: a constant the REPL reduces an expression to equals what the compiled program returns
@@ -731,10 +940,32 @@ fn compile_only(src: &str) -> Result<(), String> {
     let mut syms = HashMap::new();
     compile_clvm_text_maybe_opt(&mut a, false, opts, &mut syms, src, "*replay*", false).map(|_| ()).map_err(|e| format!("{:?}", e))
 }
+// compile in a child process: Ok(()) / Err(message) / Err("<killed ...>") when the compiler overflows its stack, panics or does not return in 120 s
+pub fn compile_child(src: &str) -> i32 {
+    let s = src.to_string();
+    match catch_unwind(move || compile_only(&s)) { Ok(Ok(())) => 0, Ok(Err(e)) => { println!("{}", e); 1 }, Err(_) => 3 }
+}
+fn compile_in_child(src: &str) -> Result<(), String> {
+    use std::io::Read;
+    let exe = std::env::current_exe().map_err(|e| format!("<no exe {}>", e))?;
+    let mut child = std::process::Command::new(exe).args(["child_compile", src]).stdout(std::process::Stdio::piped()).stderr(std::process::Stdio::null()).spawn().map_err(|e| format!("<spawn {}>", e))?;
+    let t0 = std::time::Instant::now();
+    loop {
+        match child.try_wait() {
+            Ok(Some(st)) => {
+                let mut out = String::new();
+                if let Some(mut o) = child.stdout.take() { let _ = o.read_to_string(&mut out); }
+                return match st.code() { Some(0) => Ok(()), Some(1) => Err(out), Some(3) => Err("<killed: the compiler panicked>".to_string()), Some(c) => Err(format!("<killed: exit code {}>", c)), None => Err("<killed: the compiler process died on a signal (stack overflow)>".to_string()) };
+            }
+            Ok(None) => { if t0.elapsed().as_secs() > 120 { let _ = child.kill(); let _ = child.wait(); return Err("<killed: the compiler did not return within 120 s>".to_string()); } std::thread::sleep(std::time::Duration::from_millis(20)); }
+            Err(e) => return Err(format!("<wait {}>", e)),
+        }
+    }
+}
 fn chk_scope(bad: &str, names: &str, good: &str) -> Option<Value> {
     let (b, g, n) = (bad.to_string(), good.to_string(), names.to_string());
     let res = catch_unwind(move || {
-        match compile_only(&b) {
+        match compile_in_child(&b) {
             Ok(()) => return Some(format!("ill-scoped program compiled")),
             Err(e) => { if !n.split('|').any(|x| e.contains(x)) { return Some(format!("error does not name any of {:?}: {}", n, e)); } }
         }
@@ -973,9 +1204,14 @@ pub fn search(name: &str, seed: u64) -> Value {
                 ("(mod (X) (include *standard-cl-21*) (assign yy (+ yy X) (* yy 2)))", "yy|deadlock|ircular", "(mod (X) (include *standard-cl-21*) (assign yy (+ 1 X) (* yy 2)))"),
                 ("(mod (X) (include *standard-cl-21*) (assign (pp . qq) (c X pp) zz (+ X 1) (* zz 2)))", "pp|deadlock|ircular", "(mod (X) (include *standard-cl-21*) (assign (pp . qq) (c X 1) zz (+ X 1) (* zz 2)))"),
                 ("(mod (X) (include *standard-cl-21*) (assign v1 (+ X 1) v1 (+ X 2) (* v1 v1)))", "v1|uplicate|multiple", "(mod (X) (include *standard-cl-21*) (assign v1 (+ X 1) v2 (+ X 2) (* v1 v2)))"),
+                // inline cycles whose back edge is in argument position (under if / +), lengths 2 and 3
+                ("(mod (X) (include *standard-cl-21*) (defun-inline EVEN (N) (if N (ODD (- N 1)) 1)) (defun-inline ODD (N) (if N (EVEN (- N 1)) ())) (EVEN X))", "EVEN|ODD|recurs", "(mod (X) (include *standard-cl-21*) (defun-inline EVEN (N) (if N (ODD (- N 1)) 1)) (defun ODD (N) (if N (EVEN (- N 1)) ())) (EVEN X))"),
+                ("(mod (X) (include *standard-cl-23*) (defun-inline EVEN (N) (if N (ODD (- N 1)) 1)) (defun-inline ODD (N) (if N (EVEN (- N 1)) ())) (EVEN X))", "EVEN|ODD|recurs", "(mod (X) (include *standard-cl-23*) (defun-inline EVEN (N) (if N (ODD (- N 1)) 1)) (defun ODD (N) (if N (EVEN (- N 1)) ())) (EVEN X))"),
+                ("(mod (X) (include *standard-cl-21*) (defun-inline p1 (N) (+ 1 (p2 N))) (defun-inline p2 (N) (+ 2 (p3 N))) (defun-inline p3 (N) (+ 3 (p1 N))) (p1 X))", "p1|p2|p3|recurs", "(mod (X) (include *standard-cl-21*) (defun-inline p1 (N) (+ 1 (p2 N))) (defun-inline p2 (N) (+ 2 (p3 N))) (defun p3 (N) (if N (+ 3 (p1 (- N 1))) 0)) (p1 X))"),
+                ("(mod (X) (include *standard-cl-21*) (defun-inline s1 (N) (* 2 (s1 (- N 1)))) (s1 X))", "s1|recurs", "(mod (X) (include *standard-cl-21*) (defun s1 (N) (if N (* 2 (s1 (- N 1))) 1)) (s1 X))"),
             ];
             for (bad, names, good) in cases.iter() { if let Some(v) = chk_scope(bad, names, good) { return v; } }
-            nf("10 ill-scoped programs (unbound name in main / in defun under a strict dialect, duplicate defun, inline+defun of one name, direct and mutual inline recursion, cyclic assign incl. self-reference, duplicate assign binding) are rejected with an error naming the culprit, and each repaired twin compiles")
+            nf("14 ill-scoped programs, each compiled in a child process (unbound name in main / in defun under a strict dialect, duplicate defun, inline+defun of one name, direct and mutual inline recursion with the back edge in head and in argument position (cycles of 1, 2 and 3), cyclic assign incl. self-reference, duplicate assign binding) are rejected with an error naming the culprit, and each repaired twin compiles")
         }
         "repl" => {
             let cases: Vec<(Vec<&str>, &str)> = vec![
@@ -994,7 +1230,19 @@ pub fn search(name: &str, seed: u64) -> Value {
                 (vec![], "(let ((pa 5) (pb 6)) (let* ((pc (+ pa pb)) (pd (* pc pc))) (list pa pb pc pd)))"),
             ];
             for (d, e) in cases.iter() { if let Some(v) = chk_repl(d, e) { return v; } }
-            nf("13 REPL sessions (arithmetic, recursion, inline, assign destructuring of 3/4/nested patterns, rest args, @ capture, constants, let/let*) reduce to the constant the compiled cl21 program returns")
+            let open_args = ["((1 2))", "((7 8 9))", "(((5 6) 11))"];
+            let open_cases: Vec<(Vec<&str>, &str)> = vec![
+                (vec!["(defun swap ((a . b)) (c b a))", "(defun g (n p) (if n (swap p) 0))"], "(g 1 X)"),
+                (vec!["(defun len (l) (if l (+ 1 (len (r l))) 0))", "(defun swap ((a . b)) (c b a))", "(defun g (n p) (if n (swap p) 0))"], "(g 1 X)"),
+                // helpers that happen to be spelled like CLVM operators must not capture the evaluator's own projections
+                (vec!["(defun f (l) (if l (+ 1 (f (r l))) 0))", "(defun swap ((a . b)) (c b a))", "(defun g (n p) (if n (swap p) 0))"], "(g 1 X)"),
+                (vec!["(defun r (x) (c x x))", "(defun second ((a b)) b)", "(defun g (n p) (if n (second p) 0))"], "(g 1 X)"),
+                (vec!["(defun c (x y) (+ x y))", "(defun second ((a b)) b)", "(defun g (n p) (if n (second p) 0))"], "(g 1 X)"),
+                (vec!["(defun-inline pair (a b) (c a b))", "(defun g (n p) (if n (pair (f p) (r p)) 0))"], "(g 1 X)"),
+                (vec!["(defun sum3 ((a b c)) (+ a b c))", "(defun g (n p) (if n (sum3 p) 0))"], "(g 2 X)"),
+            ];
+            for (d, e) in open_cases.iter() { if let Some(v) = chk_repl_open(d, e, &open_args) { return v; } }
+            nf("13 closed REPL sessions and 7 open ones (residual compiled and compared on 3 argument trees, incl. helpers spelled like the operators f / r / c) (arithmetic, recursion, inline, assign destructuring of 3/4/nested patterns, rest args, @ capture, constants, let/let*) reduce to the constant the compiled cl21 program returns")
         }
         "classic_meaning" => {
             // programs without a dialect sigil go through the classic (CLVM-hosted) compiler
@@ -1024,7 +1272,7 @@ pub fn search(name: &str, seed: u64) -> Value {
                 if skipped(&json!({"program": b, "dialect": d, "args": at})) { continue; }
                 if let Some(mut v) = chk_meaning(b, d, at, ex) { v["input"] = json!({"program": b, "dialect": d, "args": at}); return v; }
             } }
-            nf("19 programs (functions, inlines, quoted atoms spelled like parameters, nested destructuring in inline parameters, nested mod in main / in defun, destructuring, @ capture, rest arguments, let/let*, recursion, macro, constants) x cl21/cl23 return the hand-computed values")
+            nf("28 programs (functions, inlines, parameters drawn from a &rest tail with and without a rest parameter, quoted data containing (1), quoted atoms spelled like parameters, nested destructuring in inline parameters, nested mod in main / in defun, destructuring, @ capture, rest arguments, let/let*, recursion, macro, constants) x cl21/cl23 return the hand-computed values")
         }
         "opt_levels" => {
             let progs: Vec<(&str, Vec<&str>)> = vec![
@@ -1037,9 +1285,16 @@ pub fn search(name: &str, seed: u64) -> Value {
                 ("(mod ((P Q) R) (defun g ((A B) C) (+ (* A B) (* A B) C)) (g (list P Q) R))", vec!["((2 3) 4)"]),
                 ("(mod (X) (defun fn1 (A B) (+ A B)) (let ((pp (+ X 1))) (fn1 pp X)))", vec!["(3)"]),
                 ("(mod (X) (if X (+ X 1) 2))", vec!["(3)", "(0)"]),
+                ("(mod (X) (defun k () (q . ((1) 2))) (c X (k)))", vec!["(5)"]),
+                ("(mod (X) (defconstant K (q . ((1) (2) (q) 3))) (defun pick (N) (if N K ())) (pick X))", vec!["(5)", "(0)"]),
+                // the same costly expression under guards that do not cover each other: hoisting it above a guard makes the guarded case raise
+                ("(mod (KIND ITEM) (defun describe (KIND ITEM) (list (if (l ITEM) (sha256 (f ITEM) (f (r ITEM)) KIND (* KIND 1000000000000) (+ KIND 1000000000000)) 0) (if (= KIND 2) (sha256 (f ITEM) (f (r ITEM)) KIND (* KIND 1000000000000) (+ KIND 1000000000000)) 1))) (describe KIND ITEM))", vec!["(1 77)", "(2 (5 6))", "(1 (5 6))"]),
+                ("(mod (KIND ITEM) (defun describe (KIND ITEM) (if (= KIND 2) (if (l ITEM) (sha256 (f ITEM) (f (r ITEM)) KIND (* KIND 1000000000000) (+ KIND 1000000000000)) 99) (c KIND (sha256 (f ITEM) (f (r ITEM)) KIND (* KIND 1000000000000) (+ KIND 1000000000000))))) (describe KIND ITEM))", vec!["(2 77)", "(2 (5 6))", "(3 (5 6))"]),
+                ("(mod (A B) (defun pick (A B) (if A (if (l B) (* (f B) (f B) 1000000007 (f B)) 1) (if (l B) (+ 3 (* (f B) (f B) 1000000007 (f B))) 2))) (pick A B))", vec!["(1 9)", "(0 9)", "(1 (4))", "(0 (4))"]),
+                ("(mod (X) (let* ((A (+ X 1)) (B (* A A)) (C (- B A))) (c A (c B C))))", vec!["(3)"]),
             ];
             for (b, argss) in progs.iter() { for at in argss { if skipped(&json!({"program": b, "args": at})) { continue; } if let Some(v) = chk_opt_levels(b, at) { return v; } } }
-            nf("9 programs x argument sets: cl21/cl22/cl23 with -O off and on all agree on the returned value")
+            nf("15 programs (incl. quoted data containing (1), repeated expressions under sibling and nested guards that raise when hoisted, let* chains) x argument sets: cl21/cl22/cl23 with -O off and on all agree on the returned value")
         }
         "bigint_from_bytes" | "bigint_to_bytes_clvm" | "bigint_to_bytes_unsigned" => {
             for len in 0..14usize { for pat in 0..6u8 { for signed in [false, true] {
@@ -1057,10 +1312,18 @@ pub fn search(name: &str, seed: u64) -> Value {
                 ("(mod (X) (include *standard-cl-23*) (defun fact (N) (if (= N 1) 1 (* N (fact (- N 1))))) (fact X))", vec![("fact", "(N)")]),
             ];
             for (i, (srcx, funs)) in cases.iter().enumerate() { if let Some(v) = chk_symbols(srcx, funs, i != 1 && i != 2) { return v; } }
+            let calls: Vec<(&str, &str, Vec<(&str, i64)>, &str)> = vec![
+                ("(mod (A B) (include *standard-cl-21*) (defun apply-to (F X) (a F (list X))) (apply-to (lambda ((& A) X) (- (* 100 A) X)) B))", "lambda", vec![("A", 7), ("X", 3)], "697"),
+                ("(mod (A B) (include *standard-cl-21*) (defun apply-to (F X) (a F (list X))) (apply-to (lambda ((& A B) X Y) (list A B X Y)) B))", "lambda", vec![("A", 1), ("B", 2), ("X", 3), ("Y", 4)], "(1 2 3 4)"),
+                ("(mod (X Y) (include *standard-cl-21*) (defun k ((P Q) Z . R) (list (+ P Q Z) R)) (k (list X Y) 3 4 5))", "k", vec![("P", 5), ("Q", 3), ("Z", 10), ("R", 77)], "(18 77)"),
+                ("(mod (X) (include *standard-cl-21*) (defun dbl (A) (* A 2)) (dbl X))", "dbl", vec![("A", 21)], "42"),
+            ];
+            for (srcx, pre, b, ex) in calls.iter() { if let Some(v) = chk_symbol_call(srcx, pre, b, ex) { return v; } }
             nf("symbol entries agree with the emitted program and the source argument lists on 5 programs (incl. two functions with identical code in both orders)")
         }
         "entry_points" => {
-            let bodies = ["(mod (X) (defun f (A) (* A 2)) (f (+ X 1)))", "(mod (X Y) (defun-inline g (A B) (+ A B)) (let ((z (g X Y))) (* z z)))", "(mod (X) (defconstant K 7) (if X (+ K X) K))"];
+            let bodies = ["(mod (X) (defun f (A) (* A 2)) (f (+ X 1)))", "(mod (X Y) (defun-inline g (A B) (+ A B)) (let ((z (g X Y))) (* z z)))", "(mod (X) (defconstant K 7) (if X (+ K X) K))",
+                "(mod (X) (let* ((A (+ X 1)) (B (* A A))) (c A B)))", "(mod (X) (let* ((A (+ X 1)) (B (* A A)) (C (- B A))) (list A B C)))", "(mod (X) (a (q . (+ 2 (q . 1))) (list X)))", "(mod (X) (defun-inline dbl (A) (+ A A)) (let* ((P (dbl X)) (Q (dbl P))) (c P Q)))"];
             for d in ["*standard-cl-21*", "*standard-cl-22*", "*standard-cl-23*"] { for b in bodies { for o in [false, true] {
                 let src = with_dialect(b, d);
                 if let Some(v) = chk_entry_points(&src, o) { return v; }
@@ -1081,7 +1344,7 @@ pub fn search(name: &str, seed: u64) -> Value {
                 }
                 let _ = std::fs::remove_dir_all(&base);
             }
-            nf("library entry and tool path emit identical bytes for 3 programs x cl21/cl22/cl23 x optimize on/off, and for 4 search-path lists (incl. a repeated directory) x cl21/cl23")
+            nf("library entry and tool path emit identical bytes for 7 programs (incl. let* chains and quoted apply, which the classic post-optimiser rewrites) x cl21/cl22/cl23 x optimize on/off, and for 4 search-path lists (incl. a repeated directory) x cl21/cl23")
         }
         "include_files" | "process_include" => {
             let mut n = 0;
@@ -1092,6 +1355,40 @@ pub fn search(name: &str, seed: u64) -> Value {
                 if let Some(v) = chk_include_case(k, m) { return v; }
             } }
             nf(&format!("{} (include-file kind, dialect) cases end in a result or an error: include files that are empty, blank, comment-only, a bare atom, (), two forms, a string, a diamond-shaped graph, missing, a directory, self- and mutually-including (recorded findings skipped)", n))
+        }
+        "atomic_write" | "atomic_write_file" | "gentle_overwrite" => {
+            let rounds = if thorough() { 40 } else { 6 };
+            chk_atomic_write(rounds).unwrap_or_else(|| nf(&format!("{} rounds of 8 concurrent writers x 3 writes and 2 polling readers on one output path: every read is a complete payload, every writer succeeds (stress run, bounded)", rounds)))
+        }
+        "macro_ext" | "try_eval" => {
+            let names = ["string?", "number?", "symbol?", "string->symbol", "symbol->string", "string->number", "number->string", "string-append", "string-length", "substring"];
+            let kinds = ["\"hello\"", "3", "sym", "(q 1 2)", "1"];
+            let mut n = 0u64;
+            for name in names { for count in 0..=4usize { for rot in 0..kinds.len() {
+                let args: Vec<&str> = (0..count).map(|i| kinds[(i + rot) % kinds.len()]).collect();
+                n += 1;
+                if let Some(v) = chk_macro_ext(name, &args) { return v; }
+            } } }
+            nf(&format!("{} calls of the 10 defmac extension functions with 0..4 arguments of rotating kinds (string, number, symbol, list) end in a result or an error", n))
+        }
+        "token_mutations" => {
+            let progs = ["(mod (X) (include *standard-cl-21*) (defun f (A . B) (c A B)) (f X 1 2))", "(mod ((A . B) C) (include *standard-cl-23*) (defconstant K 3) (let ((q (+ A K))) (list q B C)))",
+                "(mod (X) (include *standard-cl-21*) (defmacro dbl (A) (qq (+ (unquote A) (unquote A)))) (dbl X))", "(mod (X) (defun-inline g (A) (* A 2)) (g X))",
+                "(mod (X) (include *standard-cl-23*) (defun h (A) (assign (P . Q) A R (+ P 1) (c R Q))) (h X))", "(mod (X) (include *standard-cl-21*) (lambda ((& X) Y) (+ X Y)))"];
+            let mut n = 0u64;
+            for p in progs {
+                let toks = tokens_of(p);
+                let join = |t: &Vec<String>| t.join(" ");
+                for i in 0..toks.len() {
+                    let mut d = toks.clone(); d.remove(i);
+                    let mut u = toks.clone(); u.insert(i, toks[i].clone());
+                    let mut w = toks.clone(); if i + 1 < toks.len() { w.swap(i, i + 1); }
+                    let mut dot = toks.clone(); dot[i] = ".".to_string();
+                    let t: Vec<String> = toks[..i].to_vec();
+                    for m in [d, u, w, dot, t] { n += 1; if let Some(v) = chk_compile_no_panic(&join(&m)) { return v; } }
+                }
+            }
+            nf(&format!("{} token-level mutations (delete, duplicate, swap with the next, replace by a dot, truncate) of 6 valid programs compile to a result or an error", n))
         }
         "no_panic" => {
             let alpha: &[u8] = b"().\"'\\#;0xa-\n ";
@@ -1107,14 +1404,31 @@ pub fn search(name: &str, seed: u64) -> Value {
                     if let Some(v) = chk_no_panic_text(&t) { return v; }
                 }
             }
+            // token level: all texts of <= 6 tokens over ( ) . space a "s" ;c\n
+            let toks: Vec<&[u8]> = vec![b"(", b")", b".", b" ", b"a", b"\"s\"", b";c\n"];
+            let maxt = if thorough() { 7 } else { 6 };
+            for len in 5..=maxt { for k in 0..toks.len().pow(len as u32) {
+                let mut t: Vec<u8> = vec![]; let mut kk = k;
+                for _ in 0..len { t.extend_from_slice(toks[kk % toks.len()]); kk /= toks.len(); }
+                count += 1;
+                if let Some(v) = chk_no_panic_text(&t) { return v; }
+            } }
             for a in 0u16..=255 { if let Some(v) = chk_no_panic_bytes(&[a as u8]) { return v; } for b in 0u16..=255 { if let Some(v) = chk_no_panic_bytes(&[a as u8, b as u8]) { return v; } } }
             let mut x = seed.wrapping_mul(6364136223846793005).wrapping_add(1442695040888963407);
             for _ in 0..20000 { x = x.wrapping_mul(6364136223846793005).wrapping_add(1442695040888963407); let d = [(x >> 8) as u8, (x >> 24) as u8, (x >> 40) as u8, (x >> 56) as u8]; if let Some(v) = chk_no_panic_bytes(&d[..3 + (x as usize & 1)]) { return v; } }
-            nf(&format!("no panic: parse_sexp and assemble on all {} texts of <= 4 (thorough: 5) symbols over a 14-symbol alphabet (parens dot quotes backslash hash semicolon 0 x a minus newline space); sexp_from_stream on all 1- and 2-byte strings and 20000 seeded 3-4 byte strings", count))
+            nf(&format!("no panic: parse_sexp and assemble on all {} texts of <= 4 (thorough: 5) symbols over a 14-symbol alphabet (parens dot quotes backslash hash semicolon 0 x a minus newline space) and of 5-6 (thorough: 7) tokens over ( ) . space a \"s\" comment; sexp_from_stream on all 1- and 2-byte strings and 20000 seeded 3-4 byte strings", count))
         }
         "modern_print" | "printable" | "escape_quote" | "make_atom" => {
             for d in disasm_inputs() { if let Some(v) = chk_modern_print(&d) { return v; } }
-            nf("modern printed text is read back identically by parse_sexp and by the classic assembler on the enumerated values")
+            // string constants of each quote kind (double quote, single quote, x for printable hex constants) over an alphabet containing the quote characters
+            let alpha: &[u8] = b"a'\"x\\ s";
+            let mut nq = 0u64;
+            for kind in [b'"', b'\'', b'x'] { for len in 0..=4usize { for k in 0..alpha.len().pow(len as u32) {
+                let mut t = vec![]; let mut kk = k; for _ in 0..len { t.push(alpha[kk % alpha.len()]); kk /= alpha.len(); }
+                nq += 1;
+                if let Some(v) = chk_modern_print_quoted(kind, &t) { return v; }
+            } } }
+            nf(&format!("modern printed text is read back identically by parse_sexp and by the classic assembler on the enumerated values and on {} quoted-string constants (3 quote kinds x strings of <= 4 symbols over a ' \" x \\ space s)", nq))
         }
         "disassemble" | "ir_for_atom" | "has_oversized_sign_extension" | "consume_quoted" | "pybytes_repr" | "interpret_atom_value" | "assemble" => {
             for d in disasm_inputs() { if let Some(v) = chk_disasm(&d) { return v; } }
